@@ -671,6 +671,22 @@ example : ∃ s, runE (init false) [.callStart, .startOk, .sampled, .chans, .pre
     (decide (s.st = .inactive ∧ s.wg = 0 ∧ stoppers s = 0 ∧ s.stopsDone = 1)) = true :=
   exists_of_run _ _ (by decide)
 
+/-- **C10_inactive_not_writing**: in every reachable state without a core loop — in particular whenever the source is
+Inactive, however the run ended (Stop, error block, closed channel, time-out) and whether writing was paused or not —
+nothing is being written: the loop's deferred clean-up stops writing before `RunDoneDeactivate`. -/
+theorem C10_inactive_not_writing (o : Bool) (s : St) (h : Reach o s) (hl : s.lp = .off) : s.writing = false := by
+  have hg := lc_inv o s h
+  cases hw : s.writing with
+  | false => rfl
+  | true => exact absurd hl (hg.writing_loop hw)
+
+theorem C10_inactive_no_loop (o : Bool) (s : St) (h : Reach o s) (hst : s.st = .inactive) : s.lp = .off ∧ s.writing = false := by
+  have hg := lc_inv o s h
+  have hnr : ¬ s.st.running := by simp [SrcState.running, hst]
+  have := (not_congr hg.run_owner).mp hnr
+  simp only [not_or, LPc.alive, ne_eq, Decidable.not_not] at this
+  exact ⟨this.1, C10_inactive_not_writing o s h this.1⟩
+
 /-! ### A valid Configure clears a remembered configuration error -/
 
 /-- **C10_valid_configure_clears_error**: whatever requests came before (any number of rejected configurations,
